@@ -264,7 +264,8 @@ Definition spec_plan (c : cfg) (r : record) : bool :=
   | PAll => Qeq_bool a 1
   | PNone => Qeq_bool a 0
   | PNatural => Qeq_bool a 0 || Qeq_bool a 1
-  | PCustom rule => Qeq_bool a (b2q (rule (rtin r) (r_seen r)))   (* rules that do not read the exposure *)
+  | PCustom rule =>      (* the rule was evaluated with the natural-course draw d in the exposure column *)
+      existsb (fun d => Qeq_bool a (b2q (rule (rtin r) (set (c_expo c) (b2q d) (r_seen r))))) [false; true]
   end.
 Fixpoint spec_lags_hist (lags : list (var * var)) (prev : env) (h : list record) : bool :=
   match h with
